@@ -10,6 +10,7 @@
 #include <string.h>
 #include "config.h"
 #include "src/vbi.h"
+#include "src/cache-priv.h"
 
 static vbi_decoder *vbi;
 static double t;
@@ -81,6 +82,16 @@ int main(void)
 				vbi_unref_page(&pg);
 			}
 			printf("}\n");
+		} else if (line[0] == 'L') {
+			/* every page in the cache (internal audit through cache-priv.h) */
+			cache_page *cp, *cp1;
+			unsigned i; int first = 1;
+			printf("{\"pages\":[");
+			for (i = 0; i < HASH_SIZE; i++)
+				FOR_ALL_NODES (cp, cp1, &vbi->ca->hash[i], hash_node) {
+					printf("%s[%d,%d]", first ? "" : ",", cp->pgno, cp->subno); first = 0;
+				}
+			printf("]}\n");
 		} else if (line[0] == 'C') {
 			unsigned pgno, subno;
 			sscanf(line + 1, "%x %x", &pgno, &subno);
